@@ -4,19 +4,23 @@ import (
 	"verif/harness/internal/core"
 )
 
-// C04 — stream framing is independent of TCP segmentation (hook variant decides; the socket variant is part of C06).
+// C04 — stream framing is independent of TCP segmentation (hook variant: exhaustive/structured cuts; socket variant: c04sock.go).
 
 func init() {
 	register(core.Plan{
 		Property: "C04", Level: "exploration",
 		Parts: func(tier string) []core.Part {
-			return []core.Part{{Name: "partitions", Bin: "plain", Batches: 1, TimeoutS: 1800}}
+			nb := 1
+			if tier == "thorough" {
+				nb = 4
+			}
+			return []core.Part{{Name: "partitions", Bin: "plain", Batches: 1, TimeoutS: 1800}, {Name: "socket", Bin: "plain", Batches: nb, Parallel: 2, TimeoutS: 1800}}
 		},
 		Assumptions: []string{
-			"service.VerifParser (build tag verif) feeds packageParse through one reused 1023-byte buffer exactly as connection.reader does; changes inside connection.reader itself are exercised by the socket conversations of C06/C09",
+			"service.VerifParser (build tag verif) feeds packageParse through one reused 1023-byte buffer exactly as connection.reader does; connection.reader itself (read loop and hand-over to the writer) is exercised by the socket part, whose partitions are what the kernel makes of the writes (TCP may coalesce or split them further)",
 			"R-stream: a frame is available exactly when its closing delimiter has been fed; only unfragmented frames (C05 owns fragmented ones)",
 		},
-	}, map[string]Worker{"partitions": c04Worker})
+	}, map[string]Worker{"partitions": c04Worker, "socket": c04Socket})
 }
 
 func c04Body(r *core.Rand, class, l int) []byte {
